@@ -1362,16 +1362,23 @@ func c06Grammar(c *Ctx, p *Prog) {
 					}
 				}
 			}
-			found = append(found, fmt.Sprintf("%s:%s[first token %q, children %s]", fn.Name(), op, kinds, kids))
+			// a node with collected children is identified by its operator alone (which production collects them, and
+			// whether the list is built in the production or in a helper it calls, is free); '*' and '-' are identified
+			// by the token that selects them
+			if kids == "many" {
+				found = append(found, fmt.Sprintf("%s[children many]", op))
+			} else {
+				found = append(found, fmt.Sprintf("%s[first token %q, children %s]", op, kinds, kids))
+			}
 		}
 	}
 	sort.Strings(found)
 	want := []string{
-		`andExpr:OpAnd[first token "", children many]`,
-		`expr:OpOr[first token "", children many]`,
-		`match:OpAnd[first token "*", children none]`,
-		`match:OpNot[first token "-", children one]`,
-		`match:OpOr[first token "qw", children many]`,
+		`OpAnd[children many]`,
+		`OpAnd[first token "*", children none]`,
+		`OpNot[first token "-", children one]`,
+		`OpOr[children many]`,
+		`OpOr[children many]`,
 	}
 	c.Check(strings.Join(found, "\n") == strings.Join(want, "\n"), R, "grammar:node-construction", "", "each production builds the documented node: "+strings.Join(found, "; "),
 		"the parser's productions do not build the documented nodes:\n  found:    "+strings.Join(found, "; ")+"\n  expected: "+strings.Join(want, "; "))
